@@ -230,6 +230,9 @@ def run(ctx):
             src = vals if (vals and rng.chance(9, 10)) else list(range(256))
             syms = [rng.choice(src) for _ in range(ns)]
             cases.append(("rt " + head + " | " + " ".join(map(str, syms)), "rt-" + mode, syms))
+    # decoder tables across a DHT that redefines a slot between scans (real codec, oracle only)
+    for i in range(ctx.n(40, 600)):
+        cases.append(("ms %d %d %d" % (rng.range(1, 1 << 30), rng.range(8, 40), rng.range(8, 40)), "ms", None))
     # nbits: exhaustive, in 64 slices
     for k in range(64):
         cases.append(("nbits %d %d" % (k * 1024, k * 1024 + 1023), "nbits", (k * 1024, k * 1024 + 1023)))
@@ -281,6 +284,11 @@ def run_cases(ctx, cases, exes, drv, flavours):
                     ctx.violation("derived tables are not inverse: decode(encode(s)) != s",
                                   {"case": line, "impl": impl}, signature="rt-mismatch:" + kind)
             nontriv = ("rt", impl[:200])
+        elif kind == "ms":
+            if not impl.startswith("ms same"):
+                ctx.violation("decoder tables do not follow a DHT that redefines a slot between scans: multi-scan and single-scan encodings of one image read back different coefficients (%s)" % impl,
+                              {"case": line, "impl": impl}, signature="ms-slot-redefinition")
+            nontriv = ("ms", line)
         elif kind == "nbits":
             lo, hi = meta
             exp = "nb " + " ".join(str(x.bit_length()) for x in range(lo, hi + 1))
@@ -297,7 +305,7 @@ def run_cases(ctx, cases, exes, drv, flavours):
                 ctx.violation("builds disagree (%s vs %s)" % (flavours[0], fl), {"case": line, flavours[0]: impl, fl: outs[fl][i]},
                               signature="build-disagree:" + kind)
         # ---- model correspondence ----
-        if mlines is not None and mlines[i] != impl:
+        if mlines is not None and kind != "ms" and mlines[i] != impl:
             disagree += 1
             if disagree <= 3:
                 ctx.log("model/impl disagree on", kind, "\n  case :", line[:160], "\n  model:", mlines[i][:160], "\n  impl :", impl[:160])
